@@ -68,6 +68,9 @@ func run(c *vf.Ctx) {
 		if c.Expired() {
 			break
 		}
+		if m.Name == "payments" || m.Name == "siafunds" {
+			m.OnState = func(x *chain.Explorer, w *chain.World, path []string) { wrapAttacks(c, x, w, path) }
+		}
 		x := chain.NewExplorer(c, m, "C01")
 		x.Run()
 		x.Report(fmt.Sprintf("%s/%s(D=%d,K=%d,R=%d)/", m.Spec.Name, m.Name, m.D, m.K, m.R))
@@ -90,7 +93,7 @@ func run(c *vf.Ctx) {
 	c.Sample(map[string]any{"network": "mixed", "trace": []string{"empty", "empty", "empty", "block[v1form(a=2,b=2,F=100) + v2sf(split=true)]", "empty", "revert(1)", "..."}})
 	c.Assume("hash functions / Ed25519 treated as uninterpreted tokens; state merging relies on hash symmetry (DESIGN 2.3)")
 	c.Assume("ephemeral parents below the network's ephemeral-output fix height carry their true values in honest actions (the unchecked window is outside the claim)")
-	c.RequireFeature("states", "transitions", "feature:v1_sc_spend", "feature:v2_sc_spend", "feature:v2_ephemeral_spend", "feature:v1_sf_spend_claim", "feature:v2_sf_spend_claim",
+	c.RequireFeature("states", "transitions", "wraparound_rejected", "feature:v1_sc_spend", "feature:v2_sc_spend", "feature:v2_ephemeral_spend", "feature:v1_sf_spend_claim", "feature:v2_sf_spend_claim",
 		"feature:v1_fc_form", "feature:v1_fc_revise", "feature:v1_fc_proof", "feature:v1_fc_expire", "feature:v2_fc_form", "feature:v2_fc_revise", "feature:v2_fc_renew", "feature:v2_fc_proof", "feature:v2_fc_expire",
 		"feature:revert_depth_1", "feature:mixed_v1_v2_block", "feature:v1_fee", "feature:v2_fee")
 }
